@@ -37,8 +37,9 @@ tree := '(' hex(tag) { '@' hex(attr) '=' hex(value) } { tree | '\'' hex(text) } 
 
 A DOCX op whose document.xml `docx.Open` refuses (a decoded paragraph nests inline containers
 deeper than `maxInlineDepth`) is answered `err` (c16.docx, c16.docx.views, c16.docx.cached,
-c16.docx.api); `odt.Open` refuses nothing: an ODT element the decoder gives up in is dropped
-together with everything behind it (`Walk.done`).
+c16.docx.api); so is an ODT op whose content.xml `odt.Open` refuses (a paragraph of a body
+element nests `text:span` / `text:a` deeper than `maxInlineDepth`: c16.odt, c16.odt.views,
+c16.odt.api).
 
 reply := <n> <elem>;<elem>;…      (n = number of elements)
   paragraph  p:<h<level>|->:<list|->:<hex text>     docx list = <hex numId>.<level>, odt list = L<level>
@@ -190,8 +191,9 @@ def handle (op : String) (args : List String) : String :=
   | "c16.odt", [content, styles] =>
     match parseTree content, parseOptTree styles with
     | some d, some st =>
-      let els := Odt.elements d st
-      s!"{els.length} {";".intercalate (els.map dumpOdt)}"
+      match Odt.openElements d st with
+      | some els => s!"{els.length} {";".intercalate (els.map dumpOdt)}"
+      | none => "err"
     | _, _ => "bad-op"
   | "c16.docx.views", [doc, styles, numbering, hdrs, ftrs, exH, exF, off, mx, seq] =>
     match parseTree doc, parseOptTree styles, parseOptTree numbering, parseTrees hdrs, parseTrees ftrs, off.toInt?, mx.toInt? with
@@ -206,10 +208,12 @@ def handle (op : String) (args : List String) : String :=
   | "c16.odt.views", [content, styles, exH, exF, off, mx, seq] =>
     match parseTree content, parseOptTree styles, off.toInt?, mx.toInt? with
     | some d, some st, some off, some mx =>
-      let rd := Odt.openReader d st
-      let opts : Odt.ExtractOptions := { excludeHeaders := exH == "1", excludeFooters := exF == "1" }
-      let o : Odt.MdOptions := { offset := off, maxLevel := mx }
-      " ".intercalate (seq.toList.map (odtView rd opts o))
+      match Odt.openReader? d st with
+      | none => "err"
+      | some rd =>
+        let opts : Odt.ExtractOptions := { excludeHeaders := exH == "1", excludeFooters := exF == "1" }
+        let o : Odt.MdOptions := { offset := off, maxLevel := mx }
+        " ".intercalate (seq.toList.map (odtView rd opts o))
     | _, _, _, _ => "bad-op"
   | "c16.docx.resolve", [styles, ids] =>
     match parseOptTree styles, parseHexList ids with
@@ -239,9 +243,11 @@ def handle (op : String) (args : List String) : String :=
   | "c16.odt.api", [content, styles, exH, exF] =>
     match parseTree content, parseOptTree styles with
     | some d, some st =>
-      let rd := Odt.openReader d st
-      let a : Odt.ApiOptions := { excludeHeaders := exH == "1", excludeFooters := exF == "1" }
-      s!"T:{hexS (Odt.apiText rd a)} M:{hexS (Odt.apiMarkdown rd a)} D:{orDash (";".intercalate ((Odt.apiDocument rd).map dumpOdtDocElem))}"
+      match Odt.openReader? d st with
+      | none => "err"
+      | some rd =>
+        let a : Odt.ApiOptions := { excludeHeaders := exH == "1", excludeFooters := exF == "1" }
+        s!"T:{hexS (Odt.apiText rd a)} M:{hexS (Odt.apiMarkdown rd a)} D:{orDash (";".intercalate ((Odt.apiDocument rd).map dumpOdtDocElem))}"
     | _, _ => "bad-op"
   | "c16.docx.vmerge", [tbl] =>
     match parseTree tbl with
